@@ -635,7 +635,8 @@ fn out_json(o: &MultiEraOutput) -> Value {
         Ok(Address::Byron(_)) => (-1, String::new(), String::new(), true),
         _ => (-2, String::new(), String::new(), false),
     };
-    json!({"coin": big_json_u64(v.coin()), "assets": assets_json(&v), "net": net, "kh": kh, "sh": sh, "byronAddr": byron_addr})
+    let dh = matches!(o.datum(), Some(conway::DatumOption::Hash(_)));
+    json!({"coin": big_json_u64(v.coin()), "assets": assets_json(&v), "net": net, "kh": kh, "sh": sh, "byronAddr": byron_addr, "dh": dh})
 }
 
 impl Case {
@@ -888,19 +889,19 @@ impl Case {
                 j["has"] = json!(true);
                 j
             }
-            None => json!({"has": false, "coin": big_json_u64(0), "assets": []}),
+            None => json!({"has": false, "coin": big_json_u64(0), "assets": [], "dh": false}),
         };
 
         let pp = match &env.prot_params {
             MultiEraProtocolParameters::Byron(p) => json!({"a": p.multiplier, "b": p.summand, "maxSize": big_json_u64(p.max_tx_size),
-                "maxMem": big_json_u64(0), "maxSteps": big_json_u64(0), "coinsPerByte": big_json_u64(1), "maxValSize": -1, "maxColl": -1, "collPct": 0, "langs": []}),
+                "maxMem": big_json_u64(0), "maxSteps": big_json_u64(0), "coinsPerByte": big_json_u64(1), "minAdaUnits": 1, "dhUnits": 0, "maxValSize": -1, "maxColl": -1, "collPct": 0, "langs": []}),
             MultiEraProtocolParameters::Shelley(p) => json!({"a": p.minfee_a, "b": p.minfee_b, "maxSize": big_json_u64(p.max_transaction_size as u64),
-                "maxMem": big_json_u64(0), "maxSteps": big_json_u64(0), "coinsPerByte": big_json_u64(p.min_utxo_value), "maxValSize": -1, "maxColl": -1, "collPct": 0, "langs": []}),
+                "maxMem": big_json_u64(0), "maxSteps": big_json_u64(0), "coinsPerByte": big_json_u64(p.min_utxo_value), "minAdaUnits": 1, "dhUnits": 0, "maxValSize": -1, "maxColl": -1, "collPct": 0, "langs": []}),
             MultiEraProtocolParameters::Alonzo(p) => json!({"a": p.minfee_a, "b": p.minfee_b, "maxSize": big_json_u64(p.max_transaction_size as u64),
-                "maxMem": big_json_u64(p.max_tx_ex_units.mem), "maxSteps": big_json_u64(p.max_tx_ex_units.steps), "coinsPerByte": big_json_u64(p.ada_per_utxo_byte),
+                "maxMem": big_json_u64(p.max_tx_ex_units.mem), "maxSteps": big_json_u64(p.max_tx_ex_units.steps), "coinsPerByte": big_json_u64(p.ada_per_utxo_byte), "minAdaUnits": 28, "dhUnits": 10,
                 "maxValSize": p.max_value_size, "maxColl": p.max_collateral_inputs, "collPct": p.collateral_percentage, "langs": [1]}),
             MultiEraProtocolParameters::Babbage(p) => json!({"a": p.minfee_a, "b": p.minfee_b, "maxSize": big_json_u64(p.max_transaction_size as u64),
-                "maxMem": big_json_u64(p.max_tx_ex_units.mem), "maxSteps": big_json_u64(p.max_tx_ex_units.steps), "coinsPerByte": big_json_u64(p.ada_per_utxo_byte),
+                "maxMem": big_json_u64(p.max_tx_ex_units.mem), "maxSteps": big_json_u64(p.max_tx_ex_units.steps), "coinsPerByte": big_json_u64(p.ada_per_utxo_byte), "minAdaUnits": 160, "dhUnits": 0,
                 "maxValSize": p.max_value_size, "maxColl": p.max_collateral_inputs, "collPct": p.collateral_percentage, "langs": [1, 2]}),
             MultiEraProtocolParameters::Conway(p) => {
                 let mut langs = vec![];
@@ -914,7 +915,7 @@ impl Case {
                     langs.push(3)
                 }
                 json!({"a": p.minfee_a, "b": p.minfee_b, "maxSize": big_json_u64(p.max_transaction_size as u64),
-                "maxMem": big_json_u64(p.max_tx_ex_units.mem), "maxSteps": big_json_u64(p.max_tx_ex_units.steps), "coinsPerByte": big_json_u64(p.ada_per_utxo_byte),
+                "maxMem": big_json_u64(p.max_tx_ex_units.mem), "maxSteps": big_json_u64(p.max_tx_ex_units.steps), "coinsPerByte": big_json_u64(p.ada_per_utxo_byte), "minAdaUnits": 160, "dhUnits": 0,
                 "maxValSize": p.max_value_size, "maxColl": p.max_collateral_inputs, "collPct": p.collateral_percentage, "langs": langs})
             }
             _ => json!({}),
